@@ -10,12 +10,15 @@ from pcstatic.sym import Const, Seq, as_poly
 
 META = {
     "level": "other",
-    "trusted_base": ["Python ast parser", "Rueppel's linear-complexity distribution (cross-validated in the checker by a textbook Berlekamp-Massey over all sequences up to length 12)",
+    "trusted_base": ["Python ast parser", "Massey 1969: the synthesis algorithm returns the linear complexity; ((x^k * p) >> (k + j)) = p >> j and >> distributes over ^ on GF(2)[x]",
+                     "Rueppel's linear-complexity distribution (cross-validated in the checker by a textbook Berlekamp-Massey over all sequences up to length 12)",
                      "floor lemma n - 1 <= 2*(n // 2) <= n", "regex/brace scan of the C++ sources (no C++ semantics)"],
-    "assumptions": ["first sentence of the property (the native, CLMUL and pure-Python routines compute the shortest LFSR and agree) is not decided by this check"],
+    "assumptions": ["of the first sentence only the pure-Python routine is decided (R-C14-BM: it refines Massey's algorithm, whose correctness theorem is trusted); "
+                    "the two C++ variants (CLMUL / word-shift) are not analysed beyond their byte-packing contract, so their agreement with the Python routine is not decided"],
     "explanation": ("LfsrCount / LfsrLogProbability are extracted as piecewise powers of two with linear exponents and proved equal to 2^min(2m-1, 2n-2m) "
                     "(resp. that exponent minus n) piece by piece with a small linear-arithmetic prover; zero/raise domains by region equivalence; "
-                    "byte order, units and range checks across the Python/C++ boundary by writer/reader agreement."),
+                    "byte order, units and range checks across the Python/C++ boundary by writer/reader agreement; LinearComplexityNative is typed in an alignment "
+                    "domain (each big integer = XOR of (s*G) >> a for ghost polynomials G) and every loop path is checked against Massey's update."),
 }
 MOD = "randomness_tests.berlekamp_massey"
 
@@ -23,6 +26,8 @@ MOD = "randomness_tests.berlekamp_massey"
 def run(ctx):
   rule_closed(ctx)
   rule_pack(ctx)
+  rule_bm(ctx)
+  ctx.expect("R-C14-BM", 3, "loop body, initial state, result")
   ctx.expect("R-C14-CLOSED", 8, "pieces of both functions + domains + reference cross-validation")
   ctx.expect("R-C14-PACK", 5, "python side, C++ range, word assembly, export, setup")
 
@@ -194,3 +199,211 @@ def rule_pack(ctx):
   ifdefs = "#ifdef __x86_64__" in read(repo, "paranoid_crypto/lib/randomness_tests/cc_util/berlekamp_massey.cc") and "#ifdef __aarch64__" in read(repo, "paranoid_crypto/lib/randomness_tests/cc_util/berlekamp_massey.cc")
   ctx.record(R, "setup.py", "both sources built; -mpclmul / +crypto gated on the machine types the #ifdefs test", oksu and ifdefs,
              "build flags and preprocessor gates agree" if oksu and ifdefs else "build configuration no longer matches the preprocessor gates")
+
+
+# ------------------------------------------------------------------ BM: the pure-Python routine refines Massey's algorithm
+def aligned(v, base):
+  """Abstract value of a big-integer expression: {ghost polynomial: alignment a} meaning XOR of (s * ghost) >> a.
+  base maps head symbols to their abstract value; >> adds to the alignment, ^ merges.  None when outside the fragment."""
+  if isinstance(v, (Seq, Const)):
+    return None
+  p = as_poly(v)
+  a = p.as_atom()
+  if a is None:
+    return None
+  for k, val in base:
+    if k == p:
+      return dict(val)
+  if a.kind == "shr" and len(a.args) == 2:
+    x = aligned(a.args[0], base)
+    if x is None:
+      return None
+    return {g: al + as_poly(a.args[1]) for g, al in x.items()}
+  if a.kind == "bxor":
+    out = {}
+    for arg in a.args:
+      x = aligned(arg, base)
+      if x is None:
+        return None
+      for g, al in x.items():
+        if g in out:
+          return None       # the same polynomial twice: outside the fragment
+        out[g] = al
+    return out
+  return None
+
+
+def subst_eqs(p, facts, syms):
+  """Rewrites p with the linear equalities of the path (coefficient +-1 in one of syms)."""
+  for fc in facts:
+    if fc[0] == "cmp" and fc[1] == "Eq" and isinstance(fc[2], Poly) and isinstance(fc[3], Poly):
+      e = fc[2] - fc[3]
+      for sy in syms:
+        at = sy.as_atom()
+        if e.degree_in(at) == 1:
+          rest = e.subst(at, Poly.const(0))
+          c = (e - rest).subst(at, Poly.const(1)).as_int()
+          if c in (1, -1):
+            p = p.subst(at, rest * (-c))
+            break
+  return p
+
+
+def rule_bm(ctx):
+  R = "R-C14-BM"
+  repo = ctx.repo
+  f = repo.func(MOD, "LinearComplexityNative")
+  w = sym.Walker(repo, f)
+  w.run()
+  S, LEN = [P("param", x) for x in f.params()[:2]]
+  loops = [i for i in w.loop_info.values() if i["visits"]]
+  if len(loops) != 1 or not isinstance(loops[0]["node"], ast.For):
+    raise Incomplete("LinearComplexityNative: expected a single for-loop over the bit positions", f.where)
+  info = loops[0]
+  vis = info["visits"][0]
+  it = None if isinstance(info["iter"], Seq) else as_poly(info["iter"])
+  ok_it = it is not None and it in (sym.mk("range", LEN), sym.mk("range", Poly.const(0), LEN), sym.mk("range", Poly.const(0), LEN, Poly.const(1)))
+  n = as_poly(vis["k"])
+  head, pre, after = vis["head"].env, vis["pre_env"], vis["after_env"]
+  paths = [bp for bp in info["body_paths"] if bp[4] is vis]
+  NB = P("ghost", "nb")
+  C, B = "C", "B"
+  cands = [x for x in info["modified"] if x in head and pre.get(x) is not None and not isinstance(pre[x], Seq)
+           and not (isinstance(pre[x], Const) and not isinstance(pre[x].v, int))]
+  big = [x for x in cands if as_poly(pre[x]) == S]                      # variables initialised with the sequence itself
+  small = [x for x in cands if x not in big and isinstance(pre[x], (Const, Poly)) and not (isinstance(pre[x], Const) and pre[x].v is None)
+           and as_poly(pre[x]).as_int() == 0]
+  verdict = None
+  tried = []
+  for sc in big:
+    for sb in big:
+      if sb == sc:
+        continue
+      for m in small:
+        for dg in small:
+          if dg == m:
+            continue
+          probs = check_bm(paths, vis, head, n, sc, sb, m, dg, NB)
+          tried.append((sc, sb, m, dg, probs))
+          if not probs:
+            verdict = (sc, sb, m, dg)
+  if verdict is None:
+    # report the assignment with the fewest failed obligations
+    tried.sort(key=lambda t: len(t[4]))
+    why = tried[0][4] if tried else ["no pair of sequence-initialised integers and zero-initialised counters found"]
+    ctx.violation(R, f.where, "loop body refines C <- C + x^(n-nb) B", "; ".join(why[:3]))
+  else:
+    sc, sb, m, dg = verdict
+    ctx.ok(R, f.where, "loop body refines C <- C + x^(n-nb) B",
+           "with %s = (s*C) >> (n - %s), %s = (s*B) >> (nb + 1), %s = L: discrepancy = coefficient n of s*C; no discrepancy keeps C, B, L; a discrepancy "
+           "adds x^(n-nb)*B to C, and exactly when 2L <= n also (B, nb, L) <- (old C, n, n+1-L); %d paths" % (sc, m, sb, dg, len(paths)))
+  ctx.record(R, f.where, "initial state and iteration space", ok_it and bool(big) and bool(small),
+             "C = B = 1 (both products start as s), L = 0, skipped-step counter 0, nb = -1; n runs over range(length)" if ok_it and big and small else
+             "the loop does not run n = 0 .. length-1 from the state C = B = 1, L = 0")
+  rets = [t for t in w.terminals if t[0] == "return"]
+  okr = bool(rets) and verdict is not None
+  for kind, val, s in rets:
+    if verdict is None or isinstance(val, Seq) or as_poly(val) != as_poly(after[verdict[3]]):
+      okr = False
+  ctx.record(R, f.where, "returns L after the last bit", okr, "the register length after processing all `length` bits (Massey 1969, Theorem 2: L is the linear complexity)"
+             if okr else "the returned value is not the length variable after the loop")
+
+
+def check_bm(paths, vis, head, n, sc, sb, m, dg, NB):
+  SC, SB, M, L = [as_poly(head[x]) for x in (sc, sb, m, dg)]
+  base = [(SC, {"C": n - M}), (SB, {"B": NB + 1})]
+  syms = [M, L]
+  probs = []
+  for kind, val, s, since, v2 in paths:
+    if kind != "fall":
+      probs.append("loop left by %s" % kind)
+      continue
+    facts = []
+    for fc in s.facts[len(vis["head"].facts):]:
+      if fc[0] == "cmp":
+        facts.append(("cmp", fc[1], as_poly(fc[2]) if not isinstance(fc[2], Seq) else fc[2], as_poly(fc[3]) if not isinstance(fc[3], Seq) else fc[3]))
+      else:
+        facts.append(fc)
+    # discrepancy decided on this path?
+    d = None
+    for fc in facts:
+      x = None
+      one = False
+      if fc[0] == "cmp" and fc[1] in ("Eq", "NotEq") and isinstance(fc[3], Poly) and fc[3].as_int() == 0:
+        x, pos = fc[2], fc[1] == "NotEq"
+      elif fc[0] == "cmp" and fc[1] in ("Eq", "NotEq") and isinstance(fc[3], Poly) and fc[3].as_int() == 1:
+        x, pos, one = fc[2], fc[1] == "Eq", True        # only meaningful for a 0/1-valued extraction (x >> j) & 1
+      elif fc[0] in ("truthy", "falsy"):
+        x, pos = as_poly(fc[1]), fc[0] == "truthy"
+      if x is None:
+        continue
+      a = x.as_atom()
+      if a is None or a.kind != "band" or len(a.args) != 2:
+        continue
+      for u, v in ((a.args[0], a.args[1]), (a.args[1], a.args[0])):
+        ua = u.as_atom()
+        bitpos = None
+        if ua is not None and ua.kind == "shl" and ua.args[0].as_int() == 1 and not one:
+          av = aligned(v, base)
+          if av is not None and set(av) == {"C"}:
+            bitpos = av["C"] + ua.args[1]
+        elif u.as_int() == 1:
+          av = aligned(v, base)
+          if av is not None and set(av) == {"C"}:
+            bitpos = av["C"]
+        if bitpos is not None:
+          if (subst_eqs(bitpos - n, facts, syms)).is_zero():
+            d = pos
+          else:
+            probs.append("the tested bit is coefficient %r of s*C, not coefficient n" % (bitpos,))
+    if d is None:
+      probs.append("a path does not test the discrepancy (coefficient n of s*C)")
+      continue
+    M2, L2 = as_poly(s.env[m]), as_poly(s.env[dg])
+    asc, asb = aligned(s.env[sc], base), aligned(s.env[sb], base)
+    if asc is None or asb is None:
+      probs.append("%s / %s is updated by something other than >> and ^" % (sc, sb))
+      continue
+    eq = lambda p, q: subst_eqs(p - q, facts, syms).is_zero()
+    if not d:
+      if set(asc) != {"C"} or not eq(asc["C"], n + 1 - M2):
+        probs.append("without a discrepancy %s must stay (s*C) >> (n+1 - %s)" % (sc, m))
+      if set(asb) != {"B"} or not eq(asb["B"], NB + 1):
+        probs.append("without a discrepancy %s changes alignment (%r instead of nb + 1): the next update adds a misaligned multiple of B" % (sb, asb.get("B")))
+      if not eq(L2, L):
+        probs.append("length changes without a discrepancy")
+      continue
+    # discrepancy: C' = C + x^(n-nb) B
+    if set(asc) != {"C", "B"} or not eq(asc["C"], n + 1 - M2) or not eq(asc["B"], asc["C"] - (n - NB)):
+      probs.append("on a discrepancy %s is not (s*(C + x^(n-nb) B)) >> (n+1 - %s): alignments %r" % (sc, m, asc))
+    g = L * 2 - n
+    change = None
+    for fc in facts:
+      if fc[0] != "cmp" or not isinstance(fc[2], Poly) or not isinstance(fc[3], Poly):
+        continue
+      e = fc[2] - fc[3]
+      for sign in (1, -1):
+        c = (e * sign - g).as_int()
+        if c is None:
+          continue
+        op = fc[1] if sign == 1 else {"Lt": "Gt", "LtE": "GtE", "Gt": "Lt", "GtE": "LtE"}.get(fc[1], fc[1])
+        # g + c  op  0
+        if op == "LtE" and -c == 0 or op == "Lt" and -c == 1:
+          change = True
+        elif op == "Gt" and -c == 0 or op == "GtE" and -c == 1:
+          change = False
+        elif op in ("LtE", "Lt", "Gt", "GtE"):
+          probs.append("length-change threshold is %s %d instead of 2L <= n" % (op, -c))
+    if change is None:
+      probs.append("a discrepancy path is not decided by 2L <= n")
+    elif change:
+      if set(asb) != {"C"} or not eq(asb["C"], n + 1):
+        probs.append("on a length change %s must become (s * old C) >> (n + 1)" % sb)
+      if not eq(L2, n + 1 - L):
+        probs.append("on a length change L must become n + 1 - L")
+    else:
+      if set(asb) != {"B"} or not eq(asb["B"], NB + 1):
+        probs.append("without a length change %s must stay untouched" % sb)
+      if not eq(L2, L):
+        probs.append("L changes although 2L > n")
+  return sorted(set(probs))
